@@ -2,7 +2,7 @@ use super::*;
 use crate::cache::AsyncLruCache;
 use crate::cache::AsyncLruCacheEntry;
 use crate::error::Qcow2Result;
-use crate::helpers::qcow2_type_of;
+use crate::helpers::{qcow2_type_of, IntAlignment, Qcow2IoBuf};
 use crate::meta::{L1Entry, L1Table, L2Table, SplitGuestOffset, Table, TableEntry};
 use futures_locks::{RwLock as AsyncRwLock, RwLockWriteGuard as LockWriteGuard};
 use std::collections::hash_map::Entry;
@@ -54,7 +54,19 @@ impl<T: Qcow2IoOps> Qcow2Dev<T> {
         F: FnOnce(&mut Qcow2Header),
     {
         let buf = h.serialize_to_buf()?;
-        if let Err(err) = self.call_write(0, &buf).await {
+
+        // the request has to be block aligned (direct io): rewrite the
+        // blocks the header lives in, keep what follows it
+        let bs = 1_usize << self.info.block_size_shift;
+        let mut io_buf = Qcow2IoBuf::<u8>::new(buf.len().align_up(bs).unwrap());
+        let res = match self.call_read(0, &mut io_buf).await {
+            Ok(_) => {
+                io_buf[..buf.len()].copy_from_slice(&buf);
+                self.call_write(0, &io_buf).await
+            }
+            Err(err) => Err(err),
+        };
+        if let Err(err) = res {
             rollback(h);
             return Err(err);
         }
